@@ -77,7 +77,7 @@ def fam_tolerance(rnd, n):
     res = []
     for i in range(n):
         ns = rnd.choice([3, 4, 4, 5, 6])
-        conc = rnd.choice([1, 2, 2, 3])
+        conc = rnd.choice([0, 1, 2, 2, 3])      # 0: Concurrency unset, which means 1
         tol = rnd.choice([-1, 0, 0, 1, 2])
         sh = shape([blk([rnd.choice([1, 1, 2]) for _ in range(ns)], conc, tol, g=rnd.choice([{}, {"post": 1, "deferred": 1}, {"deferred": 1}]))],
                    pg=rnd.choice([{}, {"deferred": 1}, {"post": 1}]), retries=rnd.choice([0, 0, 1]))
